@@ -50,6 +50,7 @@ var flavourFlags = map[string][]string{
 	"nomemo":      {"-tags", "verif coraza.no_memoize"},
 	"mphase-race": {"-tags", "verif coraza.rule.multiphase_evaluation", "-race"},
 	"prefilter":   {"-tags", "verif coraza.rule.rx_prefilter"},
+	"csargs":      {"-tags", "verif coraza.rule.case_sensitive_args_keys"},
 }
 
 func verifRoot() string {
